@@ -262,6 +262,11 @@ def run(ctx):
     GI = ctx.sval(giv)
     common.expect_term(ctx, 'E3', GI, GI.ret(), 'os.urandom(self.block_size)', 'the IV is one random block', ('E3', 'iv'), ctx.site(giv, giv.node))
 
+    # "round-trip": what the sender's to_bytes produced is accepted - Message.parse refuses a protected message only for a header that
+    # does not unpack or a checksum that does not match; any further refusal (a minimum length that assumes a block-sized ICV ...) must
+    # be unsatisfiable (shared with C05 W5)
+    from .c05 import parse_refusals
+    parse_refusals(ctx, 'E3')
     # ---------------------------------------------------------------- E4 / E5
     for name in ('generate_request', 'generate_response'):
         fi = ctx.func('ikesa.IkeSa.' + name)
